@@ -169,6 +169,8 @@ struct Checker<'a> {
     mprotect_faults_before: u64,
     counted_installed: bool,
     cur_boolean: bool,
+    obs_findings: std::rc::Rc<std::cell::RefCell<Vec<String>>>,
+    obs_count: std::rc::Rc<std::cell::Cell<u64>>,
     last_exit_ok: bool,
     lifetime: usize,
     op_ordinal: u64,
@@ -514,6 +516,105 @@ impl<'a> Checker<'a> {
     }
 }
 
+#[derive(Clone, Debug)]
+enum Dest {
+    Orig,
+    Fake(u64),
+    Bool(bool),
+}
+
+fn interp_any(arch: Arch, w: &World, entry: u64, allowed: &[(u64, u64)], stop: Option<u64>) -> Exec {
+    match arch {
+        Arch::X86_64 => interp::run_x86_64(w, entry, allowed, stop, 64),
+        Arch::A64 => interp::run_a64(w, entry, allowed, stop, 64),
+        Arch::Arm => interp::run_arm(w, entry, allowed, stop, 64),
+    }
+}
+
+impl<'a> Checker<'a> {
+    /// "Another thread calls the functions right now": an observer for OS-call boundaries.  Each
+    /// target must behave as one of `allowed[target]` at every boundary.
+    fn make_observer(&self, allowed: Vec<Vec<Dest>>) -> Box<dyn FnMut(&World, &'static str)> {
+        let arch = self.arch;
+        let targets = self.sc.targets.clone();
+        let bystanders = self.sc.bystanders.clone();
+        let pristine: Vec<Vec<u8>> = targets.iter().chain(bystanders.iter()).map(|t| self.pristine_bytes(slot_of(*t).0, SLOT as usize)).collect();
+        let findings = self.obs_findings.clone();
+        let count = self.obs_count.clone();
+        Box::new(move |w: &World, point: &'static str| {
+            let inj = w.injector_regions();
+            let mut patched: Vec<(u64, u64)> = Vec::new();
+            for (i, t) in targets.iter().chain(bystanders.iter()).enumerate() {
+                let (s0, e0) = slot_of(*t);
+                if w.peek(s0, SLOT as usize).unwrap_or_default() != pristine[i] {
+                    patched.push((s0, e0));
+                }
+            }
+            for (bi, b) in bystanders.iter().enumerate() {
+                // a thread running an un-named neighbour must be able to fetch its code right now
+                let (s0, _) = slot_of(*b);
+                let exec_ok = (0..SLOT).all(|i| w.prot_at(s0 + i).map(|p| p & PROT_X != 0).unwrap_or(false));
+                if !exec_ok && findings.borrow().len() < 4 {
+                    findings.borrow_mut().push(format!("at the {point} boundary the un-named neighbour #{bi} at {:#x} is not executable (a thread running it would fault) [bystander]", b));
+                }
+            }
+            for (ti, t) in targets.iter().enumerate() {
+                count.set(count.get() + 1);
+                let (s0, e0) = slot_of(*t);
+                let is_patched = patched.contains(&(s0, e0));
+                let mut allowed_ranges = inj.clone();
+                allowed_ranges.extend(patched.iter().copied());
+                let mut ok = false;
+                let mut last = String::new();
+                for d in &allowed[ti] {
+                    match d {
+                        Dest::Orig => {
+                            if !is_patched {
+                                ok = true;
+                            }
+                        }
+                        Dest::Fake(f) => {
+                            if is_patched {
+                                let x = interp_any(arch, w, *t, &allowed_ranges, Some(*f));
+                                if x.error.is_none() && !x.returned && x.final_pc == *f {
+                                    ok = true;
+                                } else {
+                                    last = format!("leads to {:#x} (returned={}, error {:?})", x.final_pc, x.returned, x.error);
+                                }
+                            }
+                        }
+                        Dest::Bool(b) => {
+                            if is_patched {
+                                let x = interp_any(arch, w, *t, &allowed_ranges, None);
+                                let val_ok = arch == Arch::Arm || (x.result.0 & 0xFF == 0xFF && x.result.1 & 0xFF == *b as u64);
+                                if x.error.is_none() && (x.returned || arch == Arch::Arm) && val_ok {
+                                    ok = true;
+                                } else {
+                                    last = format!("returns={} result=({:#x},{:#x}) error {:?}", x.returned, x.result.0, x.result.1, x.error);
+                                }
+                            }
+                        }
+                    }
+                    if ok {
+                        break;
+                    }
+                }
+                if !ok && findings.borrow().len() < 4 {
+                    findings.borrow_mut().push(format!("at the {point} boundary a call of target #{ti} at {:#x} from another thread would not behave as any of {:x?}: entry patched={}, {}", t, allowed[ti], is_patched, last));
+                }
+            }
+        })
+    }
+
+    fn dests_of(&self, ti: usize) -> Vec<Dest> {
+        let mut v: Vec<Dest> = self.model[ti].iter().map(|i| match i {
+            Inst::Fake(f) => Dest::Fake(*f),
+            Inst::Bool(b) => Dest::Bool(*b),
+        }).collect();
+        v
+    }
+}
+
 impl<'a> Hooks for Checker<'a> {
     fn before_op(&mut self, i: usize, op: &Install) {
         self.cur_boolean = op.kind == "boolean";
@@ -524,6 +625,24 @@ impl<'a> Hooks for Checker<'a> {
         self.regions_before = with_world(|w| w.injector_regions());
         self.slot_before = with_world(|w| w.peek(s, SLOT as usize).unwrap());
         self.mprotect_faults_before = with_world(|w| w.counters.mprotect_injected_fail);
+        // another thread calls every function at each OS-call boundary of this installation
+        let mut allowed: Vec<Vec<Dest>> = Vec::new();
+        for ti in 0..self.sc.targets.len() {
+            let mut v: Vec<Dest> = match self.model[ti].last() {
+                None => vec![Dest::Orig],
+                Some(Inst::Fake(f)) => vec![Dest::Fake(*f)],
+                Some(Inst::Bool(b)) => vec![Dest::Bool(*b)],
+            };
+            if ti == op.target {
+                v.push(if op.kind == "boolean" { Dest::Bool(op.value) } else { Dest::Fake(op.fake) });
+            }
+            allowed.push(v);
+        }
+        let obs = self.make_observer(allowed);
+        with_world(|w| {
+            w.observer = Some(obs);
+            w.observer_calls = 0;
+        });
         // arm the fault schedule for this installation only (never for the restore path: the
         // properties promise nothing about a failing restore)
         let ord = self.op_ordinal;
@@ -544,10 +663,37 @@ impl<'a> Hooks for Checker<'a> {
                 let lo = s & !(ps - 1);
                 w.policy.mprotect_deny.push((lo, (s + SLOT + ps - 1) & !(ps - 1)));
             }
+            // ordinal + 2000: only the SECOND page under the entry slot can never be made writable
+            // (matters for entries that straddle a page boundary)
+            if sc.policy.fail_mprotect.contains(&(ord + 2000)) && target_unfaked {
+                let ps = w.page_size;
+                let second = (s & !(ps - 1)) + ps;
+                if second < s + SLOT {
+                    w.policy.mprotect_deny.push((second, second + ps));
+                }
+            }
+            // ordinal + 3000: the second mprotect call of this installation fails (an
+            // implementation that protects page by page)
+            if sc.policy.fail_mprotect.contains(&(ord + 3000)) {
+                w.policy.fail_mprotect.push(w.counters.mprotect_calls + 1);
+                w.policy.fail_mprotect.sort();
+            }
         });
     }
 
     fn after_op(&mut self, i: usize, op: &Install, r: OpResult) {
+        with_world(|w| w.observer = None);
+        let first = { let mut b = self.obs_findings.borrow_mut(); let f = b.first().cloned(); b.clear(); f };
+        if let Some(f) = first {
+            let props = self.props_redirect_entry();
+            let mut props = props;
+            props.push("C02");
+            if f.contains("[bystander]") {
+                props = vec!["C03"];
+            }
+            let t = self.sc.targets[op.target];
+            self.viol("call-during-installation-saw-neither-old-nor-new-behaviour", &props, format!("lifetime {} op {} ({} on target #{} at {:#x}): {f}", self.lifetime, i, op.kind, op.target, t));
+        }
         with_world(|w| {
             w.policy.fail_mmap.clear();
             w.policy.fail_mmap_all = false;
@@ -665,6 +811,18 @@ impl<'a> Hooks for Checker<'a> {
     }
 
     fn before_exit(&mut self) {
+        // during restoration each function shows one of its fakes of this lifetime or its original
+        let mut allowed: Vec<Vec<Dest>> = Vec::new();
+        for ti in 0..self.sc.targets.len() {
+            let mut v = self.dests_of(ti);
+            v.push(Dest::Orig);
+            allowed.push(v);
+        }
+        let obs = self.make_observer(allowed);
+        with_world(|w| {
+            w.observer = Some(obs);
+            w.observer_calls = 0;
+        });
         with_world(|w| w.mark(0xFFFF_0000 | self.lifetime as u32));
         self.ev_mark = with_world(|w| w.events.len());
     }
@@ -789,6 +947,8 @@ pub fn execute(sc: &SimScenario) -> Outcome {
         mprotect_faults_before: 0,
         counted_installed: false,
         cur_boolean: false,
+        obs_findings: Default::default(),
+        obs_count: Default::default(),
         last_exit_ok: false,
         lifetime: 0,
         op_ordinal: 0,
@@ -806,6 +966,11 @@ pub fn execute(sc: &SimScenario) -> Outcome {
         with_world(|w| w.policy.mprotect_deny.clear());
         let r = dispatch(&sc.variant, lt, &sc.targets, &mut ck);
         ck.last_exit_ok = matches!(r, OpResult::Ok);
+        with_world(|w| w.observer = None);
+        let first = { let mut b = ck.obs_findings.borrow_mut(); let f = b.first().cloned(); b.clear(); f };
+        if let Some(f) = first {
+            ck.viol("call-during-restoration-saw-neither-a-fake-nor-the-original", &["C02", "C01"], format!("lifetime {li} scope exit: {f}"));
+        }
         if ck.out.probes.contains_key("aborted_after_segv") {
             break;
         }
@@ -890,6 +1055,10 @@ pub fn execute(sc: &SimScenario) -> Outcome {
     f("mmap_failed_total", c.mmap_failed);
     f("mprotect_injected_fail", c.mprotect_injected_fail);
     f("placement_rejected_and_unmapped", c.rejected_pairs);
+    let oc = ck.obs_count.get();
+    if oc > 0 {
+        ck.out.probes.insert("calls_interleaved_at_os_call_boundaries".into(), oc);
+    }
     f("simulated_sigsegv", c.segv);
     if sc.lifetimes.iter().any(|l| l.exit_panic) {
         f("injected_panic_at_scope_exit", sc.lifetimes.iter().filter(|l| l.exit_panic).count() as u64);
